@@ -10,7 +10,7 @@
  *   lflk <idx> { R ... }*                                        F ~         W all | list ...
  *
  *   <path> <name> : "-" (empty) | hex          <val> : "~" (no value) | "-" (empty) | hex
- *   <flags>       : 1 = observable, 2 = OSCORE only        <filter> : "~" (none) | "-" | hex
+ *   <flags>       : 1 = observable, 2 = OSCORE only, 4 = exact-size strings (RELEASE flags)        <filter> : "~" (none) | "-" | hex
  *
  * Every call writes into an exact-size heap buffer (sanitizer build: overruns trap; plain
  * build: a guard zone behind the buffer is checked); the filter is an exact-size heap copy
@@ -70,6 +70,15 @@ static coap_string_t *filter_of_tok(const char *t) {
   if (n) memcpy(f->s, b, n);
   free(b);
   return f;
+}
+
+/* a coap_str_const_t whose object ends with the last byte of the string */
+static coap_str_const_t *exact_str(const uint8_t *b, size_t n) {
+  coap_str_const_t *s = (coap_str_const_t *)coap_malloc_type(COAP_STRING, sizeof(coap_str_const_t) + n);
+  s->length = n;
+  s->s = (const uint8_t *)s + sizeof(coap_str_const_t);
+  if (n) memcpy((uint8_t *)s + sizeof(coap_str_const_t), b, n);
+  return s;
 }
 
 static void hnd_dummy(coap_resource_t *r, coap_session_t *s, const coap_pdu_t *req,
@@ -145,7 +154,13 @@ static int build_table(int i) {
     int fl = atoi(vtok[i + 2]);
     int na = atoi(vtok[i + 3]);
     coap_str_const_t path = { n, b };
-    coap_resource_t *r = coap_resource_init(&path, (fl & 2) ? COAP_RESOURCE_FLAGS_OSCORE_ONLY : 0);
+    /* flags bit 2 (value 4): the path, names and values are handed over as exact-size objects
+     * (RELEASE flags: libcoap keeps the caller's object, nothing - no terminator - follows the
+     * bytes), so that a read behind a string traps in the sanitizer build */
+    coap_resource_t *r = (fl & 4)
+      ? coap_resource_init(exact_str(b, n), ((fl & 2) ? COAP_RESOURCE_FLAGS_OSCORE_ONLY : 0) |
+                                             COAP_RESOURCE_FLAGS_RELEASE_URI)
+      : coap_resource_init(&path, (fl & 2) ? COAP_RESOURCE_FLAGS_OSCORE_ONLY : 0);
     free(b);
     i += 4;
     for (int a = 0; a < na; a++, i += 2) {
@@ -158,7 +173,11 @@ static int build_table(int i) {
         val.length = vn;
         val.s = vb;
       }
-      coap_add_attr(r, &name, vb ? &val : NULL, 0);
+      if (fl & 4)
+        coap_add_attr(r, exact_str(nb, nn), vb ? exact_str(vb, vn) : NULL,
+                      COAP_ATTR_FLAGS_RELEASE_NAME | COAP_ATTR_FLAGS_RELEASE_VALUE);
+      else
+        coap_add_attr(r, &name, vb ? &val : NULL, 0);
       free(nb);
       free(vb);
     }
